@@ -14,6 +14,15 @@ import (
 	"github.com/cosi-project/runtime/pkg/resource"
 )
 
+// valueOperators maps the operators which require a value to their resource counterparts.
+var valueOperators = map[v1alpha1.LabelTerm_Operation]resource.LabelOp{
+	v1alpha1.LabelTerm_EQUAL:       resource.LabelOpEqual,
+	v1alpha1.LabelTerm_LT:          resource.LabelOpLT,
+	v1alpha1.LabelTerm_LTE:         resource.LabelOpLTE,
+	v1alpha1.LabelTerm_LT_NUMERIC:  resource.LabelOpLTNumeric,
+	v1alpha1.LabelTerm_LTE_NUMERIC: resource.LabelOpLTENumeric,
+}
+
 // ConvertLabelQuery converts protobuf representation of LabelQuery to state representation.
 func ConvertLabelQuery(terms []*v1alpha1.LabelTerm) ([]resource.LabelQueryOption, error) {
 	labelOpts := make([]resource.LabelQueryOption, 0, len(terms))
@@ -23,6 +32,18 @@ func ConvertLabelQuery(terms []*v1alpha1.LabelTerm) ([]resource.LabelQueryOption
 
 		if term.Invert {
 			opts = append(opts, resource.NotMatches)
+		}
+
+		// a term of a value operator might come without a value (e.g. built with resource.RawLabelQuery),
+		// keep it as is: such a term never matches in the label query evaluation, same as for the local state
+		if rawOp, needsValue := valueOperators[term.Op]; needsValue && len(term.Value) == 0 {
+			rawTerm := resource.LabelTerm{Key: term.Key, Op: rawOp, Invert: term.Invert}
+
+			labelOpts = append(labelOpts, func(q *resource.LabelQuery) {
+				q.Terms = append(q.Terms, rawTerm)
+			})
+
+			continue
 		}
 
 		switch term.Op {
